@@ -294,13 +294,19 @@ fn cli_phase(cfg: &Cfg, sink: &Sink) -> (u64, u64) {
                 sink.fail(format!("C20:verdict-depends-on-cwd:{}", repo.name), format!("{} from {cwd:?}:\n{got}\n--- from the root ---\n{reference}", repo.name), input.clone());
             }
         }
-        // Pinned to one core (`taskset -c 0`): the number of available cores is an input like any
+        // Pinned to one core (`taskset -c <cpu>`): the number of available cores is an input like any
         // other and has two values here, one core and all of them.
-        {
+        // The core is the first one this process may run on (`Cpus_allowed_list`); without that
+        // information the run is skipped rather than risking an affinity error.
+        let allowed_cpu = std::fs::read_to_string("/proc/self/status").ok().and_then(|t| {
+            t.lines().find_map(|l| l.strip_prefix("Cpus_allowed_list:")).and_then(|v| v.trim().split([',', '-']).next().and_then(|c| c.trim().parse::<usize>().ok()))
+        });
+        if let Some(cpu) = allowed_cpu.filter(|_| std::path::Path::new("/usr/bin/taskset").exists()) {
             exhaustive += 1;
             sink.exec();
             let bin = cfg.bin.display().to_string();
-            let mut pinned_args: Vec<&str> = vec!["-c", "0", &bin];
+            let cpu = cpu.to_string();
+            let mut pinned_args: Vec<&str> = vec!["-c", &cpu, &bin];
             pinned_args.extend(args.iter().copied());
             let got = observe(&cli::blockwatch(std::path::Path::new("/usr/bin/taskset"), &dir.dir, &pinned_args, diff.as_deref(), &env, 30));
             sink.outcome(format!("cli:one-core:{}", if got == reference { "same" } else { "DIFFERENT" }));
